@@ -306,7 +306,29 @@ class RefField:
     def mul(self, a, b):
         if self.mod is None:
             return a * b % self.p
+        if self.p == 2:
+            return self._b2e(self._clmulmod(self._e2b(a), self._e2b(b)))
         return self._e(pdivmod(pmul(self._l(a), self._l(b), self.p), self.mod, self.p)[1])
+
+    # characteristic 2: bit-mask arithmetic (carry-less multiply, shift-xor reduction)
+    def _e2b(self, a):
+        return sum(c << i for i, c in enumerate(a))
+
+    def _b2e(self, n):
+        return tuple((n >> i) & 1 for i in range(self.d))
+
+    def _clmulmod(self, x, y):
+        m = self._e2b(self.mod)
+        d = self.d
+        r = 0
+        while y:
+            if y & 1:
+                r ^= x
+            y >>= 1
+            x <<= 1
+            if x >> d & 1:
+                x ^= m
+        return r
 
     def zero(self):
         return 0 if self.mod is None else self._e([])
@@ -329,6 +351,14 @@ class RefField:
         if n < 0:
             a = self.inv(a)
             n = -n
+        if self.mod is not None and self.p == 2:
+            x, r = self._e2b(a), 1
+            while n:
+                if n & 1:
+                    r = self._clmulmod(r, x)
+                x = self._clmulmod(x, x)
+                n >>= 1
+            return self._b2e(r)
         r = self.one()
         while n:
             if n & 1:
